@@ -48,7 +48,7 @@ def seenAlong : List Name → List Name → Expr → Path → List Name
     match kid e s i with
     | none => seen
     | some c =>
-      if opensTable s then seenAlong (cBinders e s ++ pend ++ seen) [] c p
+      if opensTable e s i then seenAlong (cBinders e s i ++ pend ++ seen) [] c p
       else seenAlong seen (hiddenBinders e s i ++ pend) c p
 
 /-- `markedAt` unfolded: the node exists, the flag that arrives is ADD, and the node passes the retagging test -/
@@ -153,16 +153,16 @@ theorem isSelfCall_spec {self : Name} {bound : List Name} {c : Expr} (h : isSelf
   · cases h
 
 /-- the only tail child to which tailrec.c hands a new table is the last expression of a block -/
-theorem cBinders_tail (e : Expr) (s : Slot) (i : Nat) (hs : specTail s = true) (x : Name) (hx : x ∈ cBinders e s) :
+theorem cBinders_tail (e : Expr) (s : Slot) (i : Nat) (hs : specTail s = true) (x : Name) (hx : x ∈ cBinders e s i) :
     x ∈ scopeStep e s i := by
-  cases s <;> simp [specTail] at hs <;> cases e <;> simp_all [cBinders, scopeStep]
+  cases s <;> simp [specTail] at hs <;> cases e <;> simp_all [cBinders, guardBinds, scopeStep]
+  rename_i g _ _
+  cases g <;> simp_all [cBinders, guardBinds, scopeStep]
 
 /-- the names a tail child's construct keeps in a table of its own are in lexical scope of the child -/
 theorem hiddenBinders_tail (e : Expr) (s : Slot) (i : Nat) (hs : specTail s = true) (x : Name) (hx : x ∈ hiddenBinders e s i) :
     x ∈ scopeStep e s i := by
   cases s <;> simp [specTail] at hs <;> cases e <;> simp_all [hiddenBinders, scopeStep]
-  rename_i g _ _
-  cases g <;> simp_all [hiddenBinders, scopeStep]
 
 /-- along a TAIL path the marker's lookup sees no more than the names in lexical scope -/
 theorem seenAlong_tail (p : Path) : ∀ (seen pend : List Name) (e : Expr), (∀ st ∈ p, specTail st.1 = true) →
@@ -195,5 +195,57 @@ theorem seenAlong_tail (p : Path) : ∀ (seen pend : List Name) (e : Expr), (∀
           · exact Or.inr (Or.inr (List.mem_append.mpr (Or.inr (hiddenBinders_tail e s i hs x h))))
           · exact Or.inr (Or.inl h)
         · exact Or.inr (Or.inr (List.mem_append.mpr (Or.inl h)))
+
+/-- conversely (since fix f0e3e9c): whatever a tail child has in lexical scope in addition to its parent is in the table
+that is handed to it -/
+theorem scopeStep_opens (e : Expr) (s : Slot) (i : Nat) (hs : specTail s = true) (x : Name) (hx : x ∈ scopeStep e s i) :
+    opensTable e s i = true ∧ x ∈ cBinders e s i := by
+  cases s <;> simp [specTail] at hs <;> cases e <;> simp_all [scopeStep, opensTable, cBinders, guardBinds]
+  · rename_i gs
+    cases hg : gs[i]? with
+    | none => simp_all
+    | some g => cases g <;> simp_all <;> (intro h; simp_all)
+  · rename_i g _ _
+    cases g <;> simp_all <;> (intro h; simp_all)
+
+theorem seenAlong_mono (p : Path) : ∀ (seen pend : List Name) (e : Expr) (x : Name), x ∈ seen → x ∈ seenAlong seen pend e p := by
+  induction p with
+  | nil => intro seen pend e x hx; exact hx
+  | cons st p ih =>
+    intro seen pend e x hx
+    obtain ⟨s, i⟩ := st
+    simp only [seenAlong]
+    cases hk : kid e s i with
+    | none => exact hx
+    | some c =>
+      simp only []
+      split
+      · exact ih _ _ _ _ (List.mem_append.mpr (Or.inr hx))
+      · exact ih _ _ _ _ hx
+
+/-- along a TAIL path the marker's lookup sees EVERY name in lexical scope (with `seenAlong_tail`: exactly those) -/
+theorem tailScope_seen (p : Path) : ∀ (seen pend : List Name) (e : Expr), (∀ st ∈ p, specTail st.1 = true) →
+    ∀ x, x ∈ tailScope e p → x ∈ seenAlong seen pend e p := by
+  induction p with
+  | nil => intro seen pend e _ x hx; simp [tailScope] at hx
+  | cons st p ih =>
+    intro seen pend e hp x hx
+    obtain ⟨s, i⟩ := st
+    simp only [seenAlong, tailScope] at hx ⊢
+    cases hk : kid e s i with
+    | none => rw [hk] at hx; simp at hx
+    | some c =>
+      rw [hk] at hx
+      simp only [] at hx ⊢
+      have hs : specTail s = true := hp (s, i) (by simp)
+      have hp' : ∀ st ∈ p, specTail st.1 = true := fun st hst => hp st (by simp [hst])
+      rcases List.mem_append.mp hx with h | h
+      · split
+        · exact ih _ _ c hp' x h
+        · exact ih _ _ c hp' x h
+      · obtain ⟨ho, hc⟩ := scopeStep_opens e s i hs x h
+        rw [ho]
+        simp only [if_true]
+        exact seenAlong_mono p _ _ c x (List.mem_append.mpr (Or.inl (List.mem_append.mpr (Or.inl hc))))
 
 end Never.Src.Tail
